@@ -482,4 +482,41 @@ def Lib.put (l : Lib) (k : String) (wire : MVal) : Option Lib :=
   | some _ => none
   | none => some (l ++ [(k, N wire)])
 
+/-! ### a client of the library: objects it has read are ITS objects -/
+
+/-- what a program does with one library object: store, read (the object read is handed to the caller and
+remembered here as the caller's object number `held.length`), and edit an object it holds in place -/
+inductive LOp (α : Type)
+  | put (k : String) (wire : MVal)
+  | get (k : String)
+  | edit (j : Nat) (f : α → α)
+
+/-- the library and the objects the caller holds (`α` = what the decoder returns) -/
+structure LWorld (α : Type) where
+  lib : Lib
+  held : List α
+
+/-- `lib[k]` decodes the stored value afresh on every read: it is a function of what is stored, nothing else -/
+def lstep {α : Type} (dec : MVal → α) (w : LWorld α) : LOp α → LWorld α × Option α
+  | .put k wire =>
+    match w.lib.put k wire with
+    | some l' => ({ w with lib := l' }, none)
+    | none => (w, none)
+  | .get k =>
+    match w.lib.get k with
+    | some v => ({ w with held := w.held ++ [dec v] }, some (dec v))
+    | none => (w, none)
+  | .edit j f => ({ w with held := w.held.modify j f }, none)
+
+def lrun {α : Type} (dec : MVal → α) (w : LWorld α) : List (LOp α) → LWorld α × List (Option α)
+  | [] => (w, [])
+  | o :: os =>
+    let r := lstep dec w o
+    let rest := lrun dec r.1 os
+    (rest.1, r.2 :: rest.2)
+
+def LOp.isPut {α : Type} : LOp α → Bool
+  | .put _ _ => true
+  | _ => false
+
 end Molli.Model.Codec
